@@ -62,6 +62,13 @@ def eval_default_dispatch(P, fname, member, lib, ret):
                         if nm == lib:
                             events.append(('lib', [it.ev(x) for x in e[2]]))
                             return it.ev(e[2][0])
+                        if nm == 'memcpy' and lib == 'memcmp':
+                            # bytes of one of the objects copied into a local (a word-at-a-time comparison)
+                            d_, s_, n_ = it.ev(e[2][0]), it.ev(e[2][1]), it.ev(e[2][2])
+                            if isinstance(d_, tuple) and d_[0] == 'lref' and isinstance(s_, int):
+                                it.mem_width = n_
+                                d_[1].locals[d_[2]] = rd(s_, it)
+                                return d_
                         raise cint.NoEval('call %s' % nm)
                     atoms = {('global', 'NULL'): 0, ('elem', 'inst', 0, member): FN if has_member else 0}
                     r = cint.CInt(P, fn, atoms=atoms, call=call, mem=rd, N=util.Norm(P, fn, expand_locals=False, inline=False), strict=True).run([SELF_, OBJ])
@@ -88,3 +95,109 @@ def eval_default_dispatch(P, fname, member, lib, ret):
                         did = ', '.join('%s%s' % (e_[0], tuple(e_[-1])) for e_ in events) or 'nothing is called'
                         bad[which] = '%s: %s; %s' % (label, did, 'returns %s' % (r[1],) if r[0] == 'ret' else 'raises %s' % (r[1][1] if isinstance(r[1], tuple) else r[1]))
     return bad, unsup
+
+
+class Mismatch_(Exception):
+    pass
+
+
+def eval_type_cmp(P):
+    """Type_Cmp / Type_Hash evaluated on pairs of type records given by their names (Type_Builtin_Name is the accessor, whatever it reads):
+    cmp has the sign of the comparison of the two names as byte strings — in particular it is 0 exactly for equal names, whether or not
+    the two records are the same object — and equal names hash equally.  Pairs: same object; two objects with the same name; names
+    that differ in the first byte, in the last byte only, names longer than 16 / 32 bytes that differ only after that, one a prefix of
+    the other, the empty name.
+    -> (mismatch cmp, mismatch hash, unsupported, cases)"""
+    fcmp = P.fn(P.slot('Type', 'Cmp', 'cmp'))
+    fhash = P.fn(P.slot('Type', 'Hash', 'hash'))
+    long1 = 'ConfigurationFileMissingError'
+    long2 = 'ConfigurationFileCorruptError'
+    long3 = 'A' * 40 + 'x'
+    long4 = 'A' * 40 + 'y'
+    names = [('Int', 'Int'), ('Int', 'Inu'), ('Int', 'Jnt'), ('Int', 'Integer'), ('Integer', 'Int'), ('', 'Int'), ('', ''), (long1, long2), (long2, long1), (long1, long1),
+             (long3, long4), (long4, long3), ('KeyError', 'KeyError'), ('KeyError', 'ValueError'), ('b', 'a')]
+    badc, badh, unsup, ncase = None, None, None, 0
+    A, B = 5000, 6000
+
+    def run(fn, args, na, nb, same):
+        def call(nm, e, it):
+            if nm == 'Type_Builtin_Name':
+                v = it.ev(e[2][0])
+                if v == A:
+                    return ('str', na)
+                if v == B:
+                    return ('str', nb)
+                raise cint.NoEval('name of something else')
+            if nm == 'cast':
+                return it.ev(e[2][0])
+            if nm in ('strcmp', 'strncmp', 'memcmp'):
+                x, y = it.ev(e[2][0]), it.ev(e[2][1])
+                if not (isinstance(x, tuple) and x[0] == 'str' and isinstance(y, tuple) and y[0] == 'str'):
+                    raise cint.NoEval('%s of something that is no name' % nm)
+                xs, ys = x[1].encode(), y[1].encode()
+                if nm != 'strcmp':
+                    k = it.ev(e[2][2])
+                    if nm == 'memcmp' and (k > len(xs) + 1 or k > len(ys) + 1):
+                        raise cint.NoEval('memcmp beyond a name')
+                    xs, ys = (xs + b'\0')[:k], (ys + b'\0')[:k]
+                    if nm == 'strncmp':
+                        xs, ys = xs.split(b'\0')[0], ys.split(b'\0')[0]
+                return 3 * ((xs > ys) - (xs < ys))
+            if nm == 'strlen':
+                x = it.ev(e[2][0])
+                if isinstance(x, tuple) and x[0] == 'str':
+                    return len(x[1].encode())
+                raise cint.NoEval('strlen of something that is no name')
+            if nm == 'hash_data':
+                x, k = it.ev(e[2][0]), it.ev(e[2][1])
+                if isinstance(x, tuple) and x[0] == 'str' and k > len(x[1].encode()) + 1:
+                    raise Mismatch_('hash_data is given %d bytes of the %d-byte name "%s": it reads what lies behind the name' % (k, len(x[1].encode()), x[1]))
+                if isinstance(x, tuple) and x[0] == 'str' and 0 <= k <= len(x[1].encode()) + 1:
+                    # an injective stand-in for a good hash of exactly these bytes
+                    return int.from_bytes(x[1].encode()[:k][:7].ljust(7, b'\1'), 'little') ^ (len(x[1].encode()[:k]) << 56) ^ (sum(x[1].encode()[:k]) << 40 & 0xffffffffffffffff)
+                raise cint.NoEval('hash_data of something that is no name (or beyond it)')
+            raise cint.NoEval('call %s' % nm)
+        it = cint.CInt(P, fn, atoms={('global', 'NULL'): 0}, call=call, recurse=True, max_steps=500, strict=True)
+        return it.run(args)
+    for na, nb in names:
+        for same in ((True, False) if na == nb else (False,)):
+            b = A if same else B
+            label = 'types named "%s" and "%s"%s' % (na, nb, ' (one object)' if same else (' (two objects)' if na == nb else ''))
+            ncase += 1
+            r = run(fcmp, [A, b], na, na if same else nb, same)
+            if r[0] == 'stuck':
+                unsup = unsup or '%s: %s' % (label, r[1])
+            elif r[0] != 'ret' or not isinstance(r[1], int):
+                badc = badc or '%s: cmp does not return' % label
+            else:
+                xa, xb = na.encode(), nb.encode()
+                want = (xa > xb) - (xa < xb)
+                got = (r[1] > 0) - (r[1] < 0)
+                if got != want:
+                    badc = badc or '%s: cmp gives %d, the names compare %d' % (label, got, want)
+            try:
+                h1 = run(fhash, [A], na, nb, same)
+                h2 = run(fhash, [b], na, na if same else nb, same)
+            except Mismatch_ as x:
+                badh = badh or '%s: %s' % (label, x)
+                continue
+            if h1[0] == 'stuck' or h2[0] == 'stuck':
+                unsup = unsup or '%s: hash: %s' % (label, h1[1] if h1[0] == 'stuck' else h2[1])
+            elif na == nb and h1[1] != h2[1]:
+                badh = badh or '%s: equal names hash differently' % label
+    return badc, badh, unsup, ncase
+
+
+def report_type_cmp(P, ctx, rule, site, what=('cmp', 'hash')):
+    badc, badh, unsup, ncase = eval_type_cmp(P)
+    ctx.stats['paths'] += ncase
+    for w, bad, fname, text in (('cmp', badc, P.slot('Type', 'Cmp', 'cmp'), 'two type records compare as their names do: 0 exactly for equal names (one object or two), otherwise the sign of the byte-wise order'),
+                                ('hash', badh, P.slot('Type', 'Hash', 'hash'), 'a type hashes bytes of its name only (never what lies behind it): two records with equal names hash equally')):
+        if w not in what:
+            continue
+        fn = P.fn(fname)
+        ctx.fn(fn)
+        if unsup and not bad:
+            ctx.undecided(rule, fname, site(fn), 'leaves the evaluated fragment: ' + unsup)
+        else:
+            ctx.check(bad is None, rule, fname, site(fn), text + ' (%d pairs evaluated)' % ncase, [bad] if bad else None)
